@@ -2,6 +2,7 @@ package main
 
 import (
 	"bytes"
+	"fmt"
 	"go/ast"
 	"go/printer"
 	"go/token"
@@ -242,8 +243,41 @@ func siteSections(pkgs map[string]*parsed) []sec {
 	return out
 }
 
+// alphaRename gives the variables declared inside the function (receiver, parameters, results, locals) positional
+// names, so that renaming one of them is not an edit as far as the inventory is concerned.
+func alphaRename(fd *ast.FuncDecl) {
+	names := map[*ast.Object]string{}
+	n := 0
+	// first pass: which objects are declared inside (Object.Pos looks the declaring identifier up by name, so nothing
+	// may be renamed yet)
+	ast.Inspect(fd, func(x ast.Node) bool {
+		id, ok := x.(*ast.Ident)
+		if !ok || id.Obj == nil || id.Obj.Kind != ast.Var || id.Name == "_" {
+			return true
+		}
+		if _, seen := names[id.Obj]; seen {
+			return true
+		}
+		if pos := id.Obj.Pos(); pos < fd.Pos() || pos > fd.End() {
+			return true
+		}
+		n++
+		names[id.Obj] = fmt.Sprintf("v%d", n)
+		return true
+	})
+	ast.Inspect(fd, func(x ast.Node) bool {
+		if id, ok := x.(*ast.Ident); ok && id.Obj != nil {
+			if nm, ok := names[id.Obj]; ok {
+				id.Name = nm
+			}
+		}
+		return true
+	})
+}
+
 func emitInventory(pkgs map[string]*parsed) string {
 	var secs []sec
+	secs = append(secs, siteSections(pkgs)...)
 	for _, pname := range []string{"gldap", "testdirectory"} {
 		p := pkgs[pname]
 		if p == nil {
@@ -261,6 +295,7 @@ func emitInventory(pkgs map[string]*parsed) string {
 				}
 				fd.Doc = nil
 				ast.Walk(normaliser{}, fd.Body)
+				alphaRename(fd)
 				var buf bytes.Buffer
 				fset := token.NewFileSet() // positions dropped: comments are not printed
 				cfg := printer.Config{Mode: printer.RawFormat, Tabwidth: 1}
@@ -277,7 +312,6 @@ func emitInventory(pkgs map[string]*parsed) string {
 			}
 		}
 	}
-	secs = append(secs, siteSections(pkgs)...)
 	sort.Slice(secs, func(i, j int) bool { return secs[i].key < secs[j].key })
 	var sb strings.Builder
 	sb.WriteString("# GENERATED by /verif/go/extract from /repo - normalised function inventory\n")
